@@ -30,9 +30,12 @@ def work(job):
                 if r6["status"] in ("closed", "closed-relaxed"):
                     out["loose"] = r6["status"]
                     break
-        if out["loose"] == "mismatch" and r.get("word") and r["word"][-1] == 256:
-            r5 = refine.refine(prog["src"], args, timeout=40, strict_done="0E")
-            out["endforeach"] = r5["status"]
+        if out["loose"] == "mismatch" and "foreach" in prog["src"] and "wait" in prog["src"]:
+            for mode in ("0E", "0LE", "0SE"):
+                r5 = refine.refine(prog["src"], args, timeout=40, strict_done=mode)
+                out["endforeach"] = r5["status"]
+                if r5["status"] in ("closed", "closed-relaxed"):
+                    break
     elif r["status"] in ("closed", "closed-relaxed") and prog.get("also_O3"):
         r3 = refine.refine(prog["src"], ["-O3"] + prog["args"], timeout=40)
         out["O3"] = r3["status"]
